@@ -150,6 +150,8 @@ def dom_entries(shape, es):
     nax = len(es) - nell
     if nax > len(shape) or (nell == 0 and nax != len(shape)):
         return False
+    if es and es[-1][0] == 'e' and nax == len(shape):
+        return False        # ellipsis in last position taking no axis (Lean: domGo [] (_ :: _) = false)
     k = 0
     for e in es:
         if e[0] == 'e':
@@ -158,7 +160,7 @@ def dom_entries(shape, es):
         n = shape[k]
         k += 1
         if e[0] == 'i':
-            if not (-n <= e[1] < n):
+            if not (-n <= e[1] < n and n < 2 ** 63):
                 return False
         elif not dom_range(n, *triple(e)):
             return False
@@ -390,7 +392,7 @@ def dyn_enc(es):
 def mk(enc, level, shape, es, tags=(), at=None):
     if enc == 'packed' and level in ('view', 'mutable') and len(es) == 1 and es[0][0] in ('r', 'r2') and any(v is None for v in es[0][1:]):
         return None     # view::slice(a, one range with a None part) does not compile (see k_ctad)
-    dom = dom_entries(shape, es) and not ctad(level, enc, es) and not trailing_empty_ellipsis(enc, shape, es)
+    dom = dom_entries(shape, es) and not ctad(level, enc, es)
     req = 'slice enc=%s level=%s shape=%s sl=%s' % (enc, level, fmt(shape), fmt_entries(es))
     if at is not None:
         req += ' at=%s' % fmt(at)
